@@ -191,6 +191,36 @@ impl Shared {
         }
     }
 
+    /// The error a faulting transport call reports: one of the kinds the family lists (a choice when several).
+    fn fault_kind(&mut self) -> ErrorKind {
+        const KINDS: [ErrorKind; 18] = [
+            ErrorKind::ConnectionReset,
+            ErrorKind::WriteZero,
+            ErrorKind::TimedOut,
+            ErrorKind::Interrupted,
+            ErrorKind::Other,
+            ErrorKind::BrokenPipe,
+            ErrorKind::ConnectionAborted,
+            ErrorKind::NotConnected,
+            ErrorKind::OutOfMemory,
+            ErrorKind::InvalidData,
+            ErrorKind::InvalidInput,
+            ErrorKind::Unsupported,
+            ErrorKind::NotFound,
+            ErrorKind::PermissionDenied,
+            ErrorKind::ConnectionRefused,
+            ErrorKind::AddrInUse,
+            ErrorKind::AddrNotAvailable,
+            ErrorKind::AlreadyExists,
+        ];
+        let n = self.cfg.fault_kinds.min(KINDS.len());
+        let i = if n > 1 { self.ch.choose(K_VARIANT, n, 0) } else { 0 };
+        if n > 1 {
+            self.log(|| format!("  (the transport reports {:?})", KINDS[i]));
+        }
+        KINDS[i]
+    }
+
     pub fn on_write(&mut self, c: usize, buf: &[u8]) -> Poll<Result<usize, ErrorKind>> {
         self.tick("write");
         self.conns[c].writes += 1;
@@ -294,7 +324,7 @@ impl Shared {
                     self.oracle.reach(19);
                 }
                 self.close_conn(c);
-                Poll::Ready(Err(ErrorKind::ConnectionReset))
+                Poll::Ready(Err(self.fault_kind()))
             }
             A::Zero => {
                 self.log(|| format!("  io c{} write returns Ok(0)", c));
@@ -350,7 +380,7 @@ impl Shared {
             _ => {
                 self.log(|| format!("  io c{} flush error", c));
                 self.close_conn(c);
-                Poll::Ready(Err(ErrorKind::ConnectionReset))
+                Poll::Ready(Err(self.fault_kind()))
             }
         }
     }
@@ -440,7 +470,7 @@ impl Shared {
             A::Err => {
                 self.log(|| format!("  io c{} read error", c));
                 self.close_conn(c);
-                Poll::Ready(Err(ErrorKind::ConnectionReset))
+                Poll::Ready(Err(self.fault_kind()))
             }
             A::Eof => {
                 self.log(|| format!("  io c{} read EOF", c));
